@@ -1633,8 +1633,11 @@ func (l *lexer) read() (rune, error) {
 		switch {
 		case err == io.EOF:
 			l.eof = true
-		case l.err == nil:
-			l.err = err
+		default:
+			if _, ok := l.err.(Error); ok || l.err == nil {
+				// a read error takes precedence over a syntax error
+				l.err = err
+			}
 		}
 		l.mu.Unlock()
 	case r == '\n':
@@ -1670,13 +1673,17 @@ func (l *lexer) error(pos ast.Pos, msg string) {
 	l.mu.Lock()
 	defer l.mu.Unlock()
 
-	if l.err != nil && strings.Contains(msg, ": unexpected EOF") {
+	switch _, syntax := l.err.(Error); {
+	case l.err != nil && !syntax:
+		// a read error is never replaced by a syntax error
+	case l.err != nil && strings.Contains(msg, ": unexpected EOF"):
 		return // lexing was interrupted
-	}
-	l.err = Error{
-		Name: l.name,
-		Pos:  pos,
-		Msg:  msg,
+	default:
+		l.err = Error{
+			Name: l.name,
+			Pos:  pos,
+			Msg:  msg,
+		}
 	}
 
 	select {
